@@ -178,15 +178,17 @@ FS_NOTE = "FileSink.Process / Reopen / reopen / open / rotate / pruneFiles / fil
 PROPS["C08"] = dict(
     level="other",
     explanation=FS_NOTE + "Assertions: an acknowledged event is appended exactly once and contiguously to the file the sink holds; existing files keep their content; only the oldest rotated files are removed and only under a retention limit; foreign files untouched; Reopen after an external rename keeps the renamed inode intact and starts a fresh file.",
-    jobs=[dict(harness=BROKER_H, entries=r"^H_C08_", params=dict(quick=dict(R=1, FAULTS=0, H=4), thorough=dict(R=3, FAULTS=0, H=5)), shards=dict(quick=16, thorough=16), instrument_clock=True)],
-    must_reach=["C08.history.end", "C08.process.norotate", "C08.process.rotated", "C08.process.opened", "C08.reopen.renamed", "C08.reopen.plain"],
+    jobs=[dict(harness=BROKER_H, entries=r"^H_C08_(Process|Reopen|history)$", params=dict(quick=dict(R=1, FAULTS=0, H=4), thorough=dict(R=3, FAULTS=0, H=5)), shards=dict(quick=16, thorough=16), instrument_clock=True),
+          dict(harness=BROKER_H, entries=r"^H_C08_concurrent_writers$", params=dict(quick={}, thorough={}), shards=dict(quick=4, thorough=8), maxswitches=dict(quick=3, thorough=5), instrument_locks=True)],
+    must_reach=["C08.concurrent.end", "C08.history.end", "C08.process.norotate", "C08.process.rotated", "C08.process.opened", "C08.reopen.renamed", "C08.reopen.plain"],
     bounds=dict(quick="<=1 rotated file + active + 2 foreign files; one operation from an arbitrary state (inductive step); histories of 4 operations (write / Reopen / external rename + Reopen) from an empty directory, MaxFiles 0..2, any MaxBytes / MaxDuration / clock", thorough="<=3 rotated files; histories of 5 operations"),
-    assumptions=["A-write: one write(2) on an O_APPEND descriptor is all-or-nothing, also under SIGKILL (partial writes and kernel crash behaviour are outside the claim)", "A-19digits: timestamps print with the same number of digits", "the clock is non-decreasing and strictly increasing between two file creations", "concurrent writers: every access happens with FileSink.l held (lockset in C19)"],
+    assumptions=["A-write: one write(2) on an O_APPEND descriptor is all-or-nothing, also under SIGKILL (partial writes and kernel crash behaviour are outside the claim)", "A-19digits: timestamps print with the same number of digits", "the clock is non-decreasing and strictly increasing between two file creations", "A-umask: the process umask is 022 (files get the configured mode only through the sink's explicit chmod)", "concurrent writers: every access happens with FileSink.l held (lockset in C19)"],
     trusted_base=COMMON_TRUST + ["ghost file system contracts (engine/symex/fsmodel.go)"],
 )
 PROPS["C15"] = dict(PROPS["C08"], explanation=FS_NOTE + "Assertions: rotation happens when BytesWritten>=MaxBytes>0 or the file is certainly older than MaxDuration>0 and never when certainly below both; counters restart; active name plain with TimestampOnlyOnRotate; at most MaxFiles rotated files right after a rotation (oldest removed first); configured mode applied.")
 PROPS["C13"]["jobs"].append(dict(harness=BROKER_H, entries=r"^H_C08_Process$|^H_C13_file_specials$|^H_C13_file_partial_write$", params=dict(quick=dict(R=0, FAULTS=1), thorough=dict(R=1, FAULTS=1)), shards=dict(quick=8, thorough=16), instrument_clock=True))
-PROPS["C13"]["must_reach"] += ["C13.file.specials", "C13.file.noformat", "C13.file.partial.ok"]
+PROPS["C13"]["jobs"].append(dict(harness=BROKER_H, entries=r"^H_C08_concurrent_writers$", params=dict(quick={}, thorough={}), shards=dict(quick=4, thorough=8), maxswitches=dict(quick=3, thorough=5), instrument_locks=True))
+PROPS["C13"]["must_reach"] += ["C13.file.specials", "C13.file.noformat", "C13.file.partial.ok", "C08.concurrent.end"]
 ENC_H = ["encrypt/common.go", "encrypt/helpers_sym.go", "encrypt/helpers_native.go", "encrypt/c16.go", "encrypt/history.go"]
 ENC_DIR = REPO + "/filters/encrypt"
 PROPS["C16"] = dict(
